@@ -85,6 +85,10 @@ impl Queryable for J {
         } else {
             key
         };
+        // fault injection (C08/C12 recovery check): a caller's Queryable may panic; the caller may catch it and go on
+        if key == "__panic__" {
+            panic!("verif: injected panic in Queryable::get");
+        }
         match self {
             J::Obj(m) => m.iter().find(|(k, _)| k == key).map(|(_, v)| v),
             _ => None,
@@ -128,6 +132,23 @@ impl Queryable for J {
     }
     fn null() -> Self {
         J::Null
+    }
+    /// custom functions of this data type: `boom` panics (a fault the caller catches), `nested` runs a query of its own
+    /// on each argument while the outer evaluation is in progress (re-entrancy), everything else is null
+    fn extension_custom(name: &str, args: Vec<std::borrow::Cow<Self>>) -> Self {
+        use jsonpath_rust::JsonPath;
+        match name {
+            "boom" => panic!("verif: injected panic in Queryable::extension_custom"),
+            "nested" => {
+                let mut n = 0usize;
+                for a in args.iter() {
+                    n += (**a).query("$..*").map(|v| v.len()).unwrap_or(0);
+                    n += (**a).query("$[?@ == @]").map(|v| v.len()).unwrap_or(0);
+                }
+                J::Bool(n < usize::MAX)
+            }
+            _ => J::Null,
+        }
     }
 }
 
